@@ -135,25 +135,14 @@ def r02_1(ctx: Ctx, rep: Report) -> None:  # noqa: C901
     # adoption / rebuilding stamps the platform
     rep.rule("R02.1b")
     for q in ("AceGroup.items.setter", "Acl.items.setter", "AddrGroup.items.setter", "AddressBase._init_items"):
-        f = ctx.func(q)
-        cfg = ctx.cfg(f)
-        loops = [n for n in cfg.live if n.kind == "for"]
-        units = []  # (function, variable, paths, anchor node, helper?)
-        if loops:
-            lp = loops[0]
-            units.append((f, src(lp.ast.target), [p_ for p_ in loop_body_paths(cfg, lp) if p_[-1][0] is lp], lp.ast, False))
-        else:
-            # the per-item conversion was extracted: [self._conv(item) for item in items]
-            for n in own_nodes(f.node):
-                if isinstance(n, (ast.ListComp, ast.GeneratorExp)) and len(n.generators) == 1 and isinstance(n.elt, ast.Call) and isinstance(n.elt.func, ast.Attribute) and src(n.elt.func.value) == "self" and len(n.elt.args) == 1 and src(n.elt.args[0]) == src(n.generators[0].target) and f.cls is not None:
-                    m = f.cls.lookup_method(n.elt.func.attr)
-                    if m is not None and len(m.params) == 2:
-                        from ..pathsem import function_paths as _fp
+        from .common import per_item_unit
 
-                        hp = [pi.nodes for pi in _fp(ctx.cfg(m)) if not pi.raises and pi.ret is not None]
-                        units.append((m, m.params[1], hp, n, True))
-        if not units:
+        unit = per_item_unit(ctx, ctx.func(q))
+        if unit is None:
+            rep.instance()
+            rep.violation(q, "per-item conversion", "neither a loop over the supplied items nor a per-item helper was found: adoption of items cannot be judged", where(ctx.func(q)))
             continue
+        units = [unit]
         f, var, paths, anchor, is_helper = units[0]
         lp_ast = anchor
         for path in paths:
@@ -187,9 +176,19 @@ def r02_1(ctx: Ctx, rep: Report) -> None:  # noqa: C901
                         if isinstance(x, ast.Call):
                             if any(k.arg == "platform" and "platform" in src(k.value) for k in x.keywords):
                                 stamped = True
-                            for e in ctx.cg.all_edges(f):
-                                if e.site is x and isinstance(e.target, Func) and e.kind == "call" and not e.weak:
-                                    g = e.target
+                            targets = [e.target for e in ctx.cg.all_edges(f) if e.site is x and isinstance(e.target, Func) and e.kind == "call" and not e.weak]
+                            if not targets:
+                                # `self` of a local function is the enclosing method's object
+                                from .common import callee_of_self_call
+
+                                outer = f
+                                while outer.parent is not None:
+                                    outer = outer.parent
+                                m_ = callee_of_self_call(ctx, outer, x)
+                                if m_ is not None:
+                                    targets = [m_]
+                            for g in targets:
+                                if True:
                                     ctor_calls = [y for y in own_nodes(g.node) if isinstance(y, ast.Call) and isinstance(y.func, (ast.Name, ast.Attribute)) and (src(y.func) in ctx.prog.classes or src(y.func) == "self.__class__")]
                                     if ctor_calls and all(any(k.arg == "platform" and src(k.value) in ("self._platform", "self.platform") for k in y.keywords) for y in ctor_calls):
                                         stamped = True
